@@ -111,10 +111,15 @@ func genAccept(r *core.Rand, produces, registered []string) []accRange {
 	}
 	qs := []string{"", "", "", "1", "0.9", "0.8", "0.5", "0.5", "0.1", "0.001", "1.0", "0.75", "0"}
 	others := []string{"image/png", "text/html", "application/pdf", "application/jsonp", "application/xhtml+xml"}
+	late := n >= 33 && r.Chance(1, 2) // long header whose producible types only come at the very end
 	out := make([]accRange, n)
 	for i := range out {
 		var m string
-		switch k := r.Intn(10); {
+		k := r.Intn(10)
+		if late && i < n-3 {
+			k = 9
+		}
+		switch {
 		case k < 4:
 			m = r.Pick(produces)
 		case k < 6:
@@ -158,6 +163,8 @@ func paramFree(l []string) []string {
 	return out
 }
 
+var c05Methods = []string{"GET", "HEAD", "PUT", "DELETE", "GET", "PATCH", "POST"}
+
 func orderedSubsets(pool []string, max int, r *core.Rand, limit int) [][]string {
 	var all [][]string
 	var rec func(cur []string)
@@ -194,7 +201,7 @@ func orderedSubsets(pool []string, max int, r *core.Rand, limit int) [][]string 
 
 func c05(ctx *core.Ctx) {
 	quietLogs()
-	ctx.Rule("routes with every ordered Produces list (size 1-3) over the registered media types x generated Accept headers (1-18 ranges, now and then 33, 65 or 100, q-values, parameters before/after q, */*, foreign types, absent, two header fields) x default response content type {unset, JSON, XML} x registered-writer set {built-in, +text/plain, +application/x-verif, +8 types registered concurrently, +types registered with a parameter of their own (charset, version)}; handler calls WriteEntity / WriteHeaderAndEntity. Oracle: reference ranker; SP-decorated spelling and 3 repetitions must give the same choice. Non-trivial = an admitted request that wrote an entity; distinct by (writer set, default, produces list, winning rule: exact/star/absent, number of ranges bucket, decorated).")
+	ctx.Rule("routes with every ordered Produces list (size 1-3) over the registered media types x generated Accept headers (1-18 ranges, now and then 33, 65 or 100, q-values, parameters before/after q, */*, foreign types, absent, two header fields) x default response content type {unset, JSON, XML} x registered-writer set {built-in, +text/plain, +application/x-verif, +8 types registered concurrently, +types registered with a parameter of their own (charset, version)}; handler calls WriteEntity / WriteHeaderAndEntity; every route is registered for GET, HEAD, PUT, DELETE, PATCH and POST (requests rotate over them); long headers whose producible ranges only come at the very end. Oracle: reference ranker; SP-decorated spelling and 3 repetitions must give the same choice. Non-trivial = an admitted request that wrote an entity; distinct by (writer set, default, produces list, winning rule: exact/star/absent, number of ranges bucket, decorated).")
 	ctx.Assume("Accept grammar: full media types and */*, well-formed q-values (malformed q and type/* ranges are outside the property)",
 		"with two Accept header fields only the reference-free clauses (Content-Type in Produces, never 406) are judged")
 	defer restful.DefaultResponseContentType("")
@@ -289,7 +296,7 @@ func c05(ctx *core.Ctx) {
 			for li, l := range lists {
 				l := l
 				li := li
-				ws.Route(ws.GET(fmt.Sprintf("/p%d", li)).Produces(l...).To(func(req *restful.Request, resp *restful.Response) {
+				handler := func(req *restful.Request, resp *restful.Response) {
 					if o := rt.ObsOf(req.Request); o != nil {
 						o.Invokes = append(o.Invokes, rt.Invoke{RID: li})
 					}
@@ -302,7 +309,11 @@ func c05(ctx *core.Ctx) {
 					} else {
 						resp.WriteEntity(negEntity{A: "x", N: 7})
 					}
-				}))
+				}
+				// the same resource under every method: what is negotiated does not depend on the method
+				for _, m := range []string{"GET", "HEAD", "PUT", "DELETE", "PATCH", "POST"} {
+					ws.Route(ws.Method(m).Path(fmt.Sprintf("/p%d", li)).Produces(l...).To(handler))
+				}
 			}
 			c.Add(ws)
 			for li, l := range lists {
@@ -329,7 +340,7 @@ func c05(ctx *core.Ctx) {
 						}
 					}
 					send := func(accept []string, created bool) *rt.Outcome {
-						req := rt.Req{Method: "GET", Path: fmt.Sprintf("/n/p%d", li), Hdr: map[string]string{}}
+						req := rt.Req{Method: c05Methods[(h/3)%len(c05Methods)], Path: fmt.Sprintf("/n/p%d", li), Hdr: map[string]string{}}
 						if created {
 							req.Hdr["X-Created"] = "1"
 						}
